@@ -27,6 +27,7 @@ func nodeProps() map[string]simrt.Prop {
 		"C26":   {Run: runNode("C26"), Opt: opt},
 		"C27":   {Run: runNode("C27"), Opt: opt},
 		"C28":   {Run: runNode("C28"), Opt: opt},
+		"C48":   {Run: runNode("C48"), Opt: opt},
 	}
 }
 
@@ -85,6 +86,29 @@ func runNode(focus string) func(s *simrt.Sim) {
 			e.byConn = append(e.byConn, list)
 			e.clients = append(e.clients, &clientRec{Conn: ci})
 		}
+		var ids []int
+		for i := 0; i < id; i++ {
+			ids = append(ids, i)
+		}
+		switch focus {
+		case "C48":
+			e.filt = e.genFilters(ids, map[int][]int{
+				bfe_module.HandleBeforeLocation: {vClose, vFinish, vRedirect, vResponse},
+				bfe_module.HandleFoundProduct:   {vClose, vFinish, vRedirect, vResponse},
+				bfe_module.HandleAfterLocation:  {vClose, vFinish, vRedirect, vResponse},
+				bfe_module.HandleForward:        {vFinish},
+				bfe_module.HandleReadResponse:   {vFinish},
+				bfe_module.HandleRequestFinish:  {vFinish},
+			}, 5)
+		case "C28":
+			if e.faults {
+				// module-style handlers that answer without reading the request body
+				e.filt = e.genFilters(ids, map[int][]int{
+					bfe_module.HandleBeforeLocation: {vRedirect, vResponse},
+					bfe_module.HandleAfterLocation:  {vResponse},
+				}, 4)
+			}
+		}
 		e.cur = make([]*reqPlan, nconn)
 		e.net.Policy = e.policy
 		n, err := startNode(s, e.net, e.conf, nil)
@@ -103,6 +127,9 @@ func runNode(focus string) func(s *simrt.Sim) {
 				}
 				return bfe_module.BfeHandlerGoOn
 			})
+		}
+		if e.filt != nil {
+			e.filt.install(n.srv)
 		}
 		if len(finFinish) > 0 {
 			n.srv.CallBacks.AddFilter(bfe_module.HandleRequestFinish, func(req *bfe_basic.Request, res *bfe_http.Response) int {
@@ -158,6 +185,8 @@ func runNode(focus string) func(s *simrt.Sim) {
 			e.checkC07()
 		case "C08":
 			e.checkC08()
+		case "C48":
+			e.checkC48()
 		}
 	}
 }
@@ -503,7 +532,7 @@ func (e *eng) checkC08() {
 			if len(as) > 1 {
 				first := as[0].Sub
 				for k, a := range as {
-					if k > cl.RetryMax && a.Sub == first && len(cl.Subs) > 1 && cl.CrossRetry > 0 {
+					if k > cl.RetryMax && a.Sub == first {
 						s.FailK("C08.cross", "cross-retry-in-designated-subcluster", "request r%d: attempt %d (beyond RetryMax=%d) went to the designated sub-cluster %s again", p.ID, k, cl.RetryMax, first)
 						return
 					}
@@ -514,3 +543,159 @@ func (e *eng) checkC08() {
 }
 
 var _ = simnet.Accept
+
+// C48: filters run in registration order up to the first non-continue verdict;
+// close sends nothing, redirect/response send exactly that response without a
+// backend contact, finish closes the connection after replying.
+func (e *eng) checkC48() {
+	s := e.s
+	f := e.filt
+	// 1. order and stop, per request and point
+	type key struct{ id, point int }
+	seen := map[key][]filtExec{}
+	var keys []key
+	for _, x := range f.execs {
+		k := key{x.ReqID, x.Point}
+		if _, ok := seen[k]; !ok {
+			keys = append(keys, k)
+		}
+		seen[k] = append(seen[k], x)
+	}
+	for _, k := range keys {
+		xs := seen[k]
+		if k.id < 0 {
+			continue
+		}
+		// a request may pass a point more than once only at HandleForward (one pass per attempt)
+		pos := 0
+		for _, x := range xs {
+			s.Checked(1)
+			if x.Idx != pos {
+				if k.point == bfe_module.HandleForward && x.Idx == 0 {
+					pos = 0 // next attempt
+				} else {
+					s.FailK("C48.order", "filters-out-of-registration-order", "request r%d at %s: filter #%d ran where #%d was due", k.id, bfe_module.CallbackPointName(k.point), x.Idx, pos)
+					return
+				}
+			}
+			if x.Verdict != vGoOn {
+				pos = -1 // nothing more may run in this pass
+			} else {
+				pos++
+			}
+		}
+		for i, x := range xs {
+			if x.Verdict != vGoOn && i+1 < len(xs) && !(k.point == bfe_module.HandleForward && xs[i+1].Idx == 0) {
+				s.FailK("C48.stop", "filter-ran-after-stop-verdict", "request r%d at %s: filter #%d ran after filter #%d answered %s", k.id, bfe_module.CallbackPointName(k.point), xs[i+1].Idx, x.Idx, vNames[x.Verdict])
+				return
+			}
+		}
+	}
+	// 2. effects of request-phase verdicts
+	for _, cr := range e.clients {
+		if cr.ParseErr != nil {
+			s.FailK("C48.parse", "client-stream-unparseable", "conn %d: response stream does not parse: %v; raw=%q", cr.Conn, cr.ParseErr, clip(cr.Raw, 300))
+			return
+		}
+		fin := finals(cr.Responses)
+		for i, p := range cr.Sent {
+			point, idx, v, ok := f.firstRequestVerdict(p.ID)
+			if !ok {
+				continue
+			}
+			processed, ran := false, false
+			for _, x := range f.execs {
+				if x.ReqID == p.ID {
+					processed = true
+					if x.Point == point && x.Idx == idx {
+						ran = true
+					}
+				}
+			}
+			if !processed {
+				continue // the connection ended before this request was looked at
+			}
+			s.Checked(1)
+			if !ran {
+				s.FailK("C48.order", "filter-skipped", "request r%d was processed but %s#%d (due to answer %s, every earlier filter continues) never ran", p.ID, bfe_module.CallbackPointName(point), idx, vNames[v])
+				return
+			}
+			// no later request-phase filter, no backend contact
+			for _, x := range f.execs {
+				// (response-phase points still see a module's response or redirect: only the rest of the
+				// request phase and the forward point are skipped)
+				if x.ReqID == p.ID && (x.Point > point || (x.Point == point && x.Idx > idx)) && x.Point <= bfe_module.HandleForward {
+					s.FailK("C48.stop", "later-point-ran-after-stop-verdict", "request r%d: %s#%d answered %s but %s#%d still ran", p.ID, bfe_module.CallbackPointName(point), idx, vNames[v], bfe_module.CallbackPointName(x.Point), x.Idx)
+					return
+				}
+			}
+			if as := e.attemptsOf(p.ID); len(as) > 0 {
+				s.FailK("C48.backend", "backend-contacted-after-"+vNames[v]+"-verdict", "request r%d: a filter answered %s, yet a backend was contacted (%d attempts)", p.ID, vNames[v], len(as))
+				return
+			}
+			if v == vResponse || v == vRedirect {
+				// a response-phase filter that later answers finish for the same request takes the
+				// reply over (finish: some reply, then the connection closes)
+				for _, x := range f.execs {
+					if x.ReqID == p.ID && x.Point == bfe_module.HandleReadResponse && x.Verdict == vFinish {
+						v = vFinish
+					}
+				}
+			}
+			switch v {
+			case vClose:
+				if i < len(fin) {
+					s.FailK("C48.close", "bytes-sent-after-close-verdict", "request r%d: filter answered close but the client received a response (status %d)", p.ID, fin[i].Status)
+					return
+				}
+				if !cr.Closed && !cr.Reset {
+					s.FailK("C48.close", "connection-open-after-close-verdict", "request r%d: filter answered close but the connection stayed open", p.ID)
+					return
+				}
+				s.Probe("c48_close_checked")
+			case vResponse:
+				if i >= len(fin) {
+					s.FailK("C48.response", "response-verdict-not-delivered", "request r%d: filter answered with a response, the client got none", p.ID)
+					return
+				}
+				m := fin[i]
+				want := filterBody(p.ID, point, idx)
+				wb := want
+				if p.Method == "HEAD" {
+					wb = ""
+				}
+				if m.Status != 403 || len(m.Get("X-Filter")) != 1 || m.Get("X-Filter")[0] != fmt.Sprintf("r%d-p%d-f%d", p.ID, point, idx) || string(m.Body) != wb {
+					s.FailK("C48.response", "response-verdict-altered", "request r%d: filter response (403, X-Filter, %q) arrived as status %d X-Filter=%v body %q", p.ID, want, m.Status, m.Get("X-Filter"), clip(m.Body, 80))
+					return
+				}
+				s.Probe("c48_response_checked")
+			case vRedirect:
+				if i >= len(fin) {
+					s.FailK("C48.redirect", "redirect-verdict-not-delivered", "request r%d: filter answered redirect, the client got nothing", p.ID)
+					return
+				}
+				m := fin[i]
+				loc := fmt.Sprintf("/moved/r%d/p%d/f%d", p.ID, point, idx)
+				if m.Status != 302 || len(m.Get("Location")) != 1 || m.Get("Location")[0] != loc {
+					s.FailK("C48.redirect", "redirect-verdict-altered", "request r%d: redirect to %s (302) arrived as status %d Location=%v", p.ID, loc, m.Status, m.Get("Location"))
+					return
+				}
+				s.Probe("c48_redirect_checked")
+			case vFinish:
+				// a reply, then the connection closes: nothing after this response
+				if i < len(fin)-1 {
+					s.FailK("C48.finish", "responses-after-finish-verdict", "request r%d: filter answered finish but %d more responses followed on the connection", p.ID, len(fin)-1-i)
+					return
+				}
+				if i == len(fin)-1 && !cr.Closed {
+					s.FailK("C48.finish", "connection-open-after-finish-verdict", "request r%d: filter answered finish, the connection stayed open after the reply", p.ID)
+					return
+				}
+				s.Probe("c48_finish_checked")
+			}
+			if v == vClose || v == vFinish {
+				break // the connection is over
+			}
+		}
+	}
+}
